@@ -145,6 +145,7 @@ class System:
 
     def apply(self, op):
         """-> None, or for observe the comparison result."""
+        self.steps = getattr(self, 'steps', 0) + 1
         kind, _, rest = op.partition(':')
         if kind == 'write':
             f, cid = rest.rsplit(':', 1)
@@ -172,10 +173,17 @@ class System:
         return vec
 
     def observe(self):
+        # which of the two enforcers reads the files first alternates with
+        # the parity of the number of steps taken (the comparison enforcer is
+        # ANOTHER enforcer of the same process, as a service may well have)
+        fresh = self.make_enforcer()
+        fresh_first = self.steps % 2 == 1
+        if fresh_first:
+            fresh_vec = self.vector(fresh)
         long_vec = self.vector(self.enf)
         long_rules = printed(self.enf.rules)
-        fresh = self.make_enforcer()
-        fresh_vec = self.vector(fresh)
+        if not fresh_first:
+            fresh_vec = self.vector(fresh)
         fresh_rules = printed(fresh.rules)
         return long_vec, long_rules, fresh_vec, fresh_rules
 
